@@ -165,7 +165,7 @@ def parse_run(s, withloc):
                 dfl.append((int(head[1:]), int(r[0]), int(r[1]), r[2]))
             else:
                 tid, i = head.split(":")
-                evs.append((int(tid), int(i), int(r[0]), int(r[1]), r[2], int(r[3])))
+                evs.append((int(tid), int(i), int(r[0]), int(r[1]), r[2], int(r[3]), r[4]))
     d = dict(kv.split("=") for kv in f[1:])
     return evs, dfl, int(d["m"]), d.get("loc")
 
@@ -186,8 +186,8 @@ def spec_check(case, impl):
     def pname(tid, i):
         return names[tid].ports[i][0].decode("latin1")
     want = [(a, b, c, d) for a, b, c, d, _ in exp]
-    gotL = [(a, b, c, d) for a, b, c, d, _, _ in Lev]
-    gotN = [(a, b, c, d) for a, b, c, d, _, _ in Nev]
+    gotL = [(a, b, c, d) for a, b, c, d, _, _, _ in Lev]
+    gotN = [(a, b, c, d) for a, b, c, d, _, _, _ in Nev]
     for tag, got in (("with", gotL), ("without", gotN)):
         for g in got:
             if g not in want:
@@ -201,12 +201,14 @@ def spec_check(case, impl):
             return "order: %s location buffer the callbacks run in another order than the ports" % tag
     if gotL != gotN:
         return "strategy-dependent: the callbacks invoked with and without a location buffer differ"
-    for (a, b, c, d, loc), (_, _, _, _, gl, pok) in zip(exp, Lev):
+    for (a, b, c, d, loc), (_, _, _, _, gl, pok, lf) in zip(exp, Lev):
         if gl != hx(loc):
             return "loc: port '%s' sees loc '%s', its full address is '%s'" % (pname(a, b), unhx(gl).decode("latin1") if gl != "~" else "NULL", loc.decode("latin1"))
         if not pok:
             return "port-pointer: port '%s' does not see its own Port in d.port" % pname(a, b)
-    for (_, _, _, _, gl, pok), (a, b, _, _) in zip(Nev, want):
+        if (lf == "L") != (names[a].ports[b][1] is None):
+            return "leaf-flag: port '%s' reports Port::ports %s" % (pname(a, b), "NULL" if lf == "L" else "non-NULL")
+    for (_, _, _, _, gl, pok, lf), (a, b, _, _) in zip(Nev, want):
         if not pok:
             return "port-pointer: port '%s' does not see its own Port in d.port (no location buffer)" % pname(a, b)
     leaves = sum(1 for (a, b, _, _) in gotL if names[a].ports[b][1] is None)
